@@ -50,7 +50,21 @@ NameVectors(m) ==
   {[kind |-> k, off |-> o, wid |-> w, dlen |-> d, ext |-> x] :
      k \in ByName(m, "kind").dom, o \in ByName(m, "off").dom, w \in ByName(m, "wid").dom,
      d \in ByName(m, "dlen").dom, x \in ByName(m, "ext").dom}
-Vectors(m) == IF m = "dirnames" THEN NameVectors(m) ELSE Sparse(m) \cup Full(m)
+\* the full product over all fields of a row (small rows only)
+RECURSIVE ProdUpTo(_, _)
+ProdUpTo(m, i) ==
+  IF i = 0 THEN {<<>>}
+  ELSE {g @@ (Row(m)[i].n :> c) : g \in ProdUpTo(m, i - 1), c \in Row(m)[i].dom}
+\* text formats: every literal x unit x site without nesting, every depth x opener without a literal
+TextVectors(m) ==
+  {[site |-> s, lit |-> l, unit |-> u, depth |-> "none", opener |-> "n:0"] :
+     s \in ByName(m, "site").dom, l \in ByName(m, "lit").dom, u \in ByName(m, "unit").dom}
+  \cup {[site |-> "n:0", lit |-> "typ", unit |-> "none", depth |-> d, opener |-> o] :
+     d \in (IF Quick THEN ByName(m, "depth").dom \ {"n:250000"} ELSE ByName(m, "depth").dom), o \in ByName(m, "opener").dom}
+Vectors(m) == IF m = "dirnames" THEN NameVectors(m)
+              ELSE IF m \in TextFormats THEN TextVectors(m)
+              ELSE IF m = "zbsdiff_ctl" THEN ProdUpTo(m, Len(Row(m)))
+              ELSE Sparse(m) \cup Full(m)
 
 MCInit == /\ fmt \in Fmts
           /\ vec \in Vectors(fmt)
@@ -71,7 +85,7 @@ FoldAgrees   == st.out # "run" => st \in Finals(fmt, vec, KnownDeviations)
 \* run with the listed deviations: every state that breaks the property names the finding whose guard
 \* was skipped (the check compares the set of names with the list of known findings)
 Witness ==
-  (st.out \in {"panic", "abort"} \/ (st.out # "run" /\ st.peak > AllocBoundKiB(L, Decomp(fmt)))) =>
+  (st.out \in {"panic", "abort", "stack"} \/ (st.out # "run" /\ st.peak > AllocBoundKiB(L, Decomp(fmt)))) =>
   PrintT(<<"WITNESS", ToJson([fmt |-> fmt, fid |-> Row(fmt)[st.i].dev, out |-> st.out])>>)
 
 Seal(v) == IF "seal" \in DOMAIN v THEN v["seal"] ELSE "keep"
